@@ -1,17 +1,18 @@
-import Memterm.Props.C05
-import Memterm.Props.C06
-import Memterm.Props.C07
-import Memterm.Props.C13
-import Memterm.Props.C18
-import Memterm.Props.C08
-import Memterm.Props.C12
-import Memterm.Props.C14
-import Memterm.Props.C15
-import Memterm.Props.C16
-import Memterm.Props.C17
-import Memterm.Props.C19
-import Memterm.Props.C01
-import Memterm.Props.C10
+import Memterm.Spec.C05
+import Memterm.Spec.C06
+import Memterm.Spec.C07
+import Memterm.Spec.C13
+import Memterm.Spec.C18
+import Memterm.Spec.C08
+import Memterm.Spec.C12
+import Memterm.Spec.C14
+import Memterm.Spec.C15
+import Memterm.Spec.C16
+import Memterm.Spec.C17
+import Memterm.Spec.C19
+import Memterm.Spec.C04
+import Memterm.Spec.C20
+import Memterm.Spec.C10
 
 /-
   Executable property predicates, evaluated by the driver on the
